@@ -2,6 +2,7 @@ import Driver.Util
 import Driver.C10
 import Driver.C05
 import Driver.Enable
+import Driver.C13
 open Driver
 
 def dispatch (line : String) : String :=
@@ -11,6 +12,11 @@ def dispatch (line : String) : String :=
   | "exit" :: args => C05.exit args
   | "checks" :: args => EnableOp.checks args
   | "merge" :: args => EnableOp.merge args
+  | "slice" :: args => C13.op "slice" args
+  | "plan" :: args => C13.op "plan" args
+  | "append" :: args => C13.op "append" args
+  | "overlaps" :: args => C13.op "overlaps" args
+  | "mergeseries" :: args => C13.op "mergeseries" args
   | _ => "bad-op"
 
 partial def loop (h : IO.FS.Stream) (out : IO.FS.Stream) : IO Unit := do
